@@ -136,7 +136,8 @@ SOURCE_TEXTS = {'rule': ['k => $s', '$s => 1']}
 
 CORPUS = {
     'String': ["'a'"], 'int': ['0', '2', '-1'], 'bool': ['true', 'false'],
-    'Lambda': ['$', 'true', 'false', '[$, $]'],
+    # '[$]' and not '[$, $]': as a producer/accumulator the latter doubles the value at every step (2^N leaves)
+    'Lambda': ['$', 'true', 'false', '[$]'],
     'seq': ['[]', '[7]', '[7, 8, 9]'], 'sized': ['[]', '[7]', '[7, 8, 9]'], 'iter': ['[7, 8].select($)'],
     'map': ['{}', '{a => 1}'], 'set': ['set()', 'set(1)'], 'any': ['1', 'null'],
     'Keyword': ['foo'], 'StringConstant': ["'s'"], 'rule': ['a => 1'],
